@@ -20,10 +20,11 @@ class AnalysisError(Exception):
 class Unknown:
     """Top: nothing is known about this value.  ``reason`` says why."""
 
-    __slots__ = ("reason",)
+    __slots__ = ("reason", "deps")
 
-    def __init__(self, reason="?"):
+    def __init__(self, reason="?", deps=()):
         self.reason = reason
+        self.deps = tuple(deps)        # the external values it was computed from, where that is known
 
     def __repr__(self):
         return "Unknown(%s)" % (self.reason,)
